@@ -671,9 +671,11 @@ class Program:
         """Find by trailing qualified name, e.g. '_BaseIpAnonymizer.anonymize'."""
         hits = [f for q, f in self.functions.items() if q == suffix or q.endswith("." + suffix)]
         if len(hits) != 1:
-            raise AnalysisError(
-                "anchor function %r: %d candidates (%s)" % (suffix, len(hits), [h.qualname for h in hits])
-            )
+            # the clauses anchored in this function cannot be discharged: reported as a violation naming the anchor (a renamed function with a
+            # recognisable body was already mapped back by _detect_renames)
+            raise ShapeError(
+                "anchor function %r: %d candidates (%s); the clauses anchored in it cannot be discharged" % (suffix, len(hits), [h.qualname for h in hits]),
+                None, "anchor:%s" % suffix)
         return hits[0]
 
     def maybe_function(self, suffix):
@@ -683,7 +685,7 @@ class Program:
     def find_class(self, name):
         hits = [c for q, c in self.classes.items() if q == name or q.endswith("." + name)]
         if len(hits) != 1:
-            raise AnalysisError("anchor class %r: %d candidates" % (name, len(hits)))
+            raise ShapeError("anchor class %r: %d candidates; the clauses anchored in it cannot be discharged" % (name, len(hits)), None, "anchor:%s" % name)
         return hits[0]
 
     def subclasses(self, cls):
